@@ -11,6 +11,7 @@ import HcipyVerif.Lemmas.FftState
 import HcipyVerif.Lemmas.FftPlan
 import HcipyVerif.Lemmas.ZoomN
 import HcipyVerif.Model.FftWeights
+import HcipyVerif.Lemmas.Nft
 
 /-!
 # C01 — every Fourier transform evaluates the same weighted Fourier sum
@@ -199,6 +200,33 @@ theorem fast_forward_weights_nd_eq_sum (hT : IsChar T) (hE : IsChar E)
   unfold fastForwardNW
   rw [fastForwardN_eq_sumForwardN hT hE hper gs hgs _ ks hks, sumForwardN]
   exact congrArg _ (funext fun js => by ring)
+
+/-- **NaiveFourierTransform.forward = the defining sum**, for both code paths — the list
+comprehension over output points (`precompute_matrices = False`) and the precomputed matrix of
+`get_transformation_matrix_forward` (`A = exp(-i·coords_outᵀ·coords_in); A *= weights`) — on
+arbitrary (unstructured) points in any number of dimensions (`dotCoords us xs k j = u_k · x_j`),
+per-point weights.  The code *is* the sum up to the order of the factors; the statement is kept
+because it is what ties the specification the other theorems refer to to running code (driver op
+`nft`, family `tie-nft`). -/
+theorem naive_forward_eq_sum (n : ℕ) (us xs : List (ℕ → K)) (w f : ℕ → C) (k : ℕ) :
+    nftForwardFly E n us xs w f k = ∑ j ∈ range n, f j * w j * E (-(dotCoords us xs k j)) ∧
+    nftForwardMat E n us xs w f k = ∑ j ∈ range n, f j * w j * E (-(dotCoords us xs k j)) :=
+  ⟨nft_forward_fly_eq_sum E n us xs w f k, nft_forward_mat_eq_sum E n us xs w f k⟩
+
+/-- **NaiveFourierTransform.backward = the backward sum** (`wOut = output weights/(2π)^ndim`),
+both code paths. -/
+theorem naive_backward_eq_sum (m : ℕ) (us xs : List (ℕ → K)) (wOut F : ℕ → C) (j : ℕ) :
+    nftBackwardFly E m us xs wOut F j = ∑ k ∈ range m, F k * wOut k * E (dotCoords us xs k j) ∧
+    nftBackwardMat E m us xs wOut F j = ∑ k ∈ range m, F k * wOut k * E (dotCoords us xs k j) :=
+  ⟨nft_backward_fly_eq_sum E m us xs wOut F j, nft_backward_mat_eq_sum E m us xs wOut F j⟩
+
+/-- **NaiveFourierTransform = MatrixFourierTransform (1-D)** on the same coordinates, both weight
+branches of the MFT, both NFT paths. -/
+theorem naive_eq_mft_1d (n : ℕ) (x u : ℕ → K) (w : Weights C) (f : ℕ → C) (k : ℕ) :
+    nftForwardFly E n [u] [x] w.get f k = mftForward1 E n x u w f k ∧
+    nftForwardMat E n [u] [x] w.get f k = mftForward1 E n x u w f k := by
+  rw [nft_forward_fly_eq_sum, nft_forward_mat_eq_sum, mft_forward_eq_sum_1d]
+  simp only [dotCoords_one, and_self]
 
 /-- The index core on its own (the round-0 spike): pad → ifftshift → DFT → fftshift → crop is the
 centred sum, for every `M`-periodic kernel. -/
